@@ -107,9 +107,20 @@ mod prelude {
         },
     };
     pub(crate) use thiserror::Error as ThisError;
+    #[cfg(not(pearl_verif))]
     pub(crate) use tokio::{
         fs::{read_dir, DirEntry},
         sync::{RwLock, Semaphore},
+        time::{Instant, Duration},
+    };
+    // Under the verification guard the storage-level lock is a wrapper with a cooperative
+    // yield point before every acquisition
+    #[cfg(pearl_verif)]
+    pub(crate) use crate::verif::RwLock;
+    #[cfg(pearl_verif)]
+    pub(crate) use tokio::{
+        fs::{read_dir, DirEntry},
+        sync::Semaphore,
         time::{Instant, Duration},
     };
     pub(crate) use tokio_stream::StreamExt;
